@@ -150,3 +150,27 @@ def squeeth_world(kind="eq", frozen_bar=8, n=10):
     w = World(f"squeeth({kind})", build, roots, {"squni.data": udata, "squeeth.data": sdata, "prices": prices})
     w.allowed_gain = lambda ctx, op: sq.allowed_gain(w, ctx, op)
     return w
+
+
+# ---------------------------------------------------------------------------------------------------------
+def deribit_world(frozen_bar=1):
+    from . import deribit as db
+
+    data = db.std_frame(3)
+    prices = db.price_frame(data)
+    index = data.index.get_level_values(0).unique()
+
+    def build():
+        m = db.make_market(data)
+        ctx = Ctx("deribit", prices, USD, [db.DeribitAdapter(m, data)], [(db.ETH, 4)], index)
+        ctx.begin_bar(frozen_bar)
+        return ctx
+
+    roots = (
+        (),
+        ("deribit.deposit[part]",),
+        ("deribit.deposit[part]", "deribit.buy[C1,2,market]"),
+        ("deribit.deposit[dust]",),
+        ("deribit.deposit[part]", "deribit.buy[C1,6,market]", "deribit.buy[P1,1,market]"),
+    )
+    return World("deribit", build, roots, {"deribit.data": data, "prices": prices})
